@@ -57,11 +57,23 @@ class Interp:
         def on_close(p, *a):
             if self.at_close is None and getattr(self, "ep", None) is not None:
                 self.at_close = (len(self.ep.t.calls), sum(len(b) for _, b in self.ep.t.written))
+        # "aconn": the application's onConnect() returns a pending Deferred / Future (documented as allowed); the history decides when, and
+        # how, it completes - possibly after the connection has gone
+        self.connect_pending = None
+        self.connect_done = False
+        self.hs_fed = False
+
+        def on_connect(p, r):
+            if config.get("aconn") and self.connect_pending is None:
+                import txaio
+                self.connect_pending = txaio.create_future()
+                return self.connect_pending
+            return None
         if self.is_server:
-            self.side = wsutil.server(self.d, opts=opts, hooks={"onClose": on_close})
+            self.side = wsutil.server(self.d, opts=opts, hooks={"onClose": on_close, "onConnect": on_connect})
         else:
             opts["serverConnectionDropTimeout"] = config["drop_to"]
-            self.side = wsutil.client(self.d, opts=opts, hooks={"onClose": on_close})
+            self.side = wsutil.client(self.d, opts=opts, hooks={"onClose": on_close, "onConnect": on_connect})
         self.ep = self.side.connect()
         if config.get("auto_loss"):
             self.ep.enable_auto_loss()
@@ -135,7 +147,7 @@ class Interp:
 
     def do_handshake(self):
         from harness import wsutil
-        if self.handshook or self.ep.loss_delivered or self.rank != 1:
+        if self.handshook or self.hs_fed or self.ep.loss_delivered or self.rank != 1:
             return
         if self.is_server:
             self.feed(wsutil.raw_request())
@@ -146,7 +158,42 @@ class Interp:
             key = dict(parsed[1]).get("sec-websocket-key")
             self.feed(wsutil.raw_response(key))
         self.hs_out += self.ep.take()
+        self.hs_fed = True
+        if self.is_server and self.connect_pending is not None and not self.connect_done:
+            return      # no response yet: the request is complete, the application has not decided
         self.handshook = True
+
+    def do_finish_connect(self, outcome):
+        """the pending onConnect() result arrives: "ok" (accept) or "fail" (the application's future fails)"""
+        import txaio
+        f = self.connect_pending
+        if f is None or self.connect_done:
+            return
+        self.connect_done = True
+        if self.ep.loss_delivered or self.rank >= 3:
+            self.sources.add("late-onConnect-result")
+        else:
+            self.sources.add("onConnect-result")
+
+        def go():
+            if outcome == "ok":
+                txaio.resolve(f, None)
+            else:
+                try:
+                    raise RuntimeError("application refuses")
+                except RuntimeError:
+                    txaio.reject(f)
+        try:
+            self.d.call(go)
+        except (Violation, HarnessError):
+            raise
+        except Exception as e:
+            self.fail("exception|onConnect-result|" + exc_key(e), repr(e))
+        self.d.settle()
+        if self.is_server and not self.handshook:
+            self.hs_out += self.ep.take()
+            if RANK.get(self.proto.state) == 2 and not self.ep.loss_delivered:
+                self.handshook = True
 
     def do_local_close(self, code, reason):
         state0 = self.proto.state
@@ -482,7 +529,9 @@ def config_strategy():
                                   "drop_to": st.sampled_from([0, 1, 2]), "open_to": st.sampled_from([0, 2, 5]),
                                   # True: the loss of a transport the endpoint itself closed / aborted is delivered by the event loop on its next turn, as the
                                   # real frameworks do (ahead of pending timers and queued writes); False: the history decides when (or whether) it is delivered
-                                  "auto_loss": st.sampled_from([False, False, True])})
+                                  "auto_loss": st.sampled_from([False, False, True]),
+                                  # True: onConnect() returns a pending Deferred / Future; a rule completes it (or never does)
+                                  "aconn": st.sampled_from([False, False, True])})
 
 
 def make_machine_factory(col):
@@ -550,6 +599,10 @@ def make_machine_factory(col):
             def deliver_own_drop(self):
                 self.ap("deliver_own_drop")
 
+            @rule(outcome=st.sampled_from(["ok", "ok", "fail"]))
+            def finish_connect(self, outcome):
+                self.ap("finish_connect", outcome)
+
             @rule()
             def peer_bytes_after_drop(self):
                 self.ap("peer_bytes_after_drop")
@@ -578,6 +631,10 @@ ALPHABET = [("local_close", 1000, None), ("local_close", 3000, "bye"), ("local_s
             ("advance", "to", 0.0), ("advance", "amount", 0.6), ("peer_drop", False), ("peer_drop", True), ("deliver_own_drop",), ("peer_bytes_after_drop",)]
 
 
+ALPHABET_AC = [("finish_connect", "ok"), ("finish_connect", "fail"), ("local_close", 1000, None), ("local_send", "message"), ("peer_close", "valid", 1000, ""),
+               ("peer_data", "text"), ("advance", "to", 0.0), ("advance", "amount", 0.6), ("peer_drop", False), ("deliver_own_drop",)]
+
+
 def short_histories(col, server, fbd, depth):
     """exhaustive: handshake, then every sequence of `depth` events from ALPHABET, for (auto-loss on/off) x (timeouts off / 1 s); the invariants
     run after every event and at teardown (which also runs the clock past every applicable deadline)"""
@@ -599,6 +656,24 @@ def short_histories(col, server, fbd, depth):
             col.case(len(i.sources) >= 2, enum=True, cls=["short_histories/%s/%s" % ("server" if server else "client", "auto-loss" if al else "scripted-loss")],
                      sample={"config": cfg, "steps": [list(x) for x in seq]} if n_hist % 997 == 1 else None)
     col.exhaustive.append("C05 short_histories %s fbd=%s: %d^%d event sequences x 4 configurations = %d histories" % ("server" if server else "client", fbd, len(ALPHABET), depth, n_hist))
+    # the same with an application whose onConnect() result is pending: the result (accept / failure) is one of the events, so it may arrive before or
+    # after closing began, a timeout fired or the transport went away
+    n_ac = 0
+    for al, to in grid:
+        cfg = {"server": server, "fbd": fbd, "echo": False, "close_to": to, "drop_to": to, "open_to": 2 * to, "auto_loss": al, "aconn": True}
+        for seq in guarded_blocks(itertools.product(ALPHABET_AC, repeat=depth), every=512):
+            i = Interp(col, cfg)
+            try:
+                i.apply(("handshake",))
+                for st_ in seq:
+                    i.apply(st_)
+            finally:
+                i.teardown()
+            n_ac += 1
+            col.case(len(i.sources) >= 2, enum=True, cls=["short_histories_async_onConnect/%s/%s" % ("server" if server else "client", "auto-loss" if al else "scripted-loss")],
+                     sample={"config": cfg, "steps": [list(x) for x in seq]} if n_ac % 499 == 1 else None)
+    col.exhaustive.append("C05 short_histories with pending onConnect() %s fbd=%s: %d^%d event sequences x 4 configurations = %d histories" % (
+        "server" if server else "client", fbd, len(ALPHABET_AC), depth, n_ac))
 
 
 def truncate(col, seed, n):
